@@ -161,3 +161,31 @@ pub fn panic_site(msg: &str) -> String {
 		None => "unknown".to_string(),
 	}
 }
+
+struct StderrLogger(log::LevelFilter);
+
+impl log::Log for StderrLogger {
+	fn enabled(&self, m: &log::Metadata) -> bool {
+		m.level() <= self.0
+	}
+	fn log(&self, r: &log::Record) {
+		if self.enabled(r.metadata()) {
+			eprintln!("    [parity-db {}] {}", r.level(), r.args());
+		}
+	}
+	fn flush(&self) {}
+}
+
+/// Print the library's own log lines (PDBV_LOG=warn|info|debug|trace); used when replaying.
+pub fn install_logger() {
+	let lvl = match std::env::var("PDBV_LOG").ok().as_deref() {
+		Some("trace") => log::LevelFilter::Trace,
+		Some("debug") => log::LevelFilter::Debug,
+		Some("info") => log::LevelFilter::Info,
+		Some("warn") => log::LevelFilter::Warn,
+		_ => return,
+	};
+	let l: &'static StderrLogger = Box::leak(Box::new(StderrLogger(lvl)));
+	let _ = log::set_logger(l);
+	log::set_max_level(lvl);
+}
